@@ -135,9 +135,12 @@ nlopt_opt NLOPT_STDCALL nlopt_copy(const nlopt_opt opt)
     if (opt) {
         nlopt_munge munge;
         nopt = (nlopt_opt) malloc(sizeof(struct nlopt_opt_s));
+        if (!nopt)
+            return NULL;
         *nopt = *opt;
         nopt->lb = nopt->ub = nopt->xtol_abs = nopt->x_weights = NULL;
         nopt->fc = nopt->h = NULL;
+        nopt->m = nopt->p = 0;  /* set below, once fc and h are allocated */
         nopt->m_alloc = nopt->p_alloc = 0;
         nopt->local_opt = NULL;
         nopt->dx = NULL;
@@ -154,19 +157,19 @@ nlopt_opt NLOPT_STDCALL nlopt_copy(const nlopt_opt opt)
 
         if (opt->n > 0) {
             nopt->lb = (double *) malloc(sizeof(double) * (opt->n));
-            if (!opt->lb)
+            if (!nopt->lb)
                 goto oom;
             nopt->ub = (double *) malloc(sizeof(double) * (opt->n));
-            if (!opt->ub)
+            if (!nopt->ub)
                 goto oom;
             if (opt->xtol_abs) {
                 nopt->xtol_abs = (double *) malloc(sizeof(double) * (opt->n));
-                if (!opt->xtol_abs)
+                if (!nopt->xtol_abs)
                     goto oom;
             }
             if (opt->x_weights) {
                 nopt->x_weights = (double *) malloc(sizeof(double) * (opt->n));
-                if (!opt->x_weights)
+                if (!nopt->x_weights)
                     goto oom;
                 memcpy(nopt->x_weights, opt->x_weights, sizeof(double) * (opt->n));
             }
@@ -185,6 +188,7 @@ nlopt_opt NLOPT_STDCALL nlopt_copy(const nlopt_opt opt)
             if (!nopt->fc)
                 goto oom;
             memcpy(nopt->fc, opt->fc, sizeof(nlopt_constraint) * (opt->m));
+            nopt->m = opt->m;
             for (i = 0; i < opt->m; ++i)
                 nopt->fc[i].tol = NULL;
             if (munge)
@@ -208,6 +212,7 @@ nlopt_opt NLOPT_STDCALL nlopt_copy(const nlopt_opt opt)
             if (!nopt->h)
                 goto oom;
             memcpy(nopt->h, opt->h, sizeof(nlopt_constraint) * (opt->p));
+            nopt->p = opt->p;
             for (i = 0; i < opt->p; ++i)
                 nopt->h[i].tol = NULL;
             if (munge)
@@ -225,9 +230,9 @@ nlopt_opt NLOPT_STDCALL nlopt_copy(const nlopt_opt opt)
         }
 
         if (opt->nparams) {
-            nopt->nparams = opt->nparams;
             nopt->params = (nlopt_opt_param *) calloc(opt->nparams, sizeof(nlopt_opt_param));
             if (!nopt->params) goto oom;
+            nopt->nparams = opt->nparams;
             for (i = 0; i < opt->nparams; ++i) {
                 size_t len = strlen(opt->params[i].name) + 1;
                 nopt->params[i].name = (char *) malloc(len);
